@@ -136,6 +136,53 @@ def sizePairs : List (Item × Item) → UInt64 → UInt64
   | (k, v) :: r, acc => sizePairs r (Gen._cbor_safe_signaling_add acc (Gen._cbor_safe_signaling_add (size k) (size v)))
 end
 
+/-- what `cbor_serialized_size` looks at: the shape of the tree and the *recorded lengths* of its strings (never their bytes) -/
+inductive Skel
+  | leaf (sz : UInt64)                       -- integers, floats, simple values: 1, 2, 3, 5 or 9 bytes
+  | str (len : Nat)
+  | strI (lens : List Nat)
+  | arr (definite : Bool) (xs : List Skel)
+  | map (definite : Bool) (ps : List (Skel × Skel))
+  | tag (n : Nat) (x : Skel)
+
+mutual
+/-- `cbor_serialized_size` over a skeleton; lengths may be anything a `size_t` field can record -/
+def sizeS : Skel → UInt64
+  | .leaf sz => sz
+  | .str len => sizeString len
+  | .strI lens => lens.foldl (fun acc l => Gen._cbor_safe_signaling_add acc (sizeString l)) 2
+  | .arr d xs => sizeSList xs (if d then Gen._cbor_encoded_header_size (UInt64.ofNat xs.length) else 2)
+  | .map d ps => sizeSPairs ps (if d then Gen._cbor_encoded_header_size (UInt64.ofNat ps.length) else 2)
+  | .tag t x => Gen._cbor_safe_signaling_add (Gen._cbor_encoded_header_size (UInt64.ofNat t)) (sizeS x)
+def sizeSList : List Skel → UInt64 → UInt64
+  | [], acc => acc
+  | x :: xs, acc => sizeSList xs (Gen._cbor_safe_signaling_add acc (sizeS x))
+def sizeSPairs : List (Skel × Skel) → UInt64 → UInt64
+  | [], acc => acc
+  | (k, v) :: r, acc => sizeSPairs r (Gen._cbor_safe_signaling_add acc (Gen._cbor_safe_signaling_add (sizeS k) (sizeS v)))
+end
+
+mutual
+/-- the skeleton of an item -/
+def skel : Item → Skel
+  | .bytes b => .str b.length
+  | .text b => .str b.length
+  | .bytesI cs => .strI (cs.map List.length)
+  | .textI cs => .strI (cs.map List.length)
+  | .array xs => .arr true (skelList xs)
+  | .arrayI xs => .arr false (skelList xs)
+  | .map kvs => .map true (skelPairs kvs)
+  | .mapI kvs => .map false (skelPairs kvs)
+  | .tag t x => .tag t (skel x)
+  | x => .leaf (size x)
+def skelList : List Item → List Skel
+  | [] => []
+  | x :: xs => skel x :: skelList xs
+def skelPairs : List (Item × Item) → List (Skel × Skel)
+  | [] => []
+  | (k, v) :: r => (skel k, skel v) :: skelPairs r
+end
+
 /-- `cbor_serialize_alloc`: `okAlloc k` = does `malloc(k)` succeed.  `none` = returned 0 with `*buffer == NULL`;
 `some (written, block)` = the value returned and the block handed to the caller (fresh memory modelled as zeros). -/
 def serializeAlloc (okAlloc : Nat → Bool) (t : Item) : Option (UInt64 × Array UInt8) :=
